@@ -97,7 +97,7 @@ def get(prog, path):
     return cur
 
 
-RAISE_KINDS = ["expr", "expr", "pysc", "py", "arg", "expr", "capnc"]
+RAISE_KINDS = ["expr", "iterloop", "pysc", "py", "arg", "expr", "capnc"]
 UNDEF_NAME = "missing_name_zq"
 
 
@@ -106,6 +106,11 @@ def raise_node(kind):
         return {"t": "py", "code": ["raise Boom('py')"], "oneline": True}
     if kind == "arg":
         return {"t": "expr", "e": "str(boom(Boom))"}
+    if kind == "iterloop":
+        # the exception comes out of the iterable of a loop that has a loop context of its own: nothing was entered yet, so
+        # nothing may be left - `loop` of an enclosing loop is what it was
+        return {"t": "for", "target": "zq9", "iter": "boom(Boom)", "body": [{"t": "expr", "e": "loop.index"}], "else": None,
+                "ind": "", "sp": " ", "uses_loop": True}
     if kind == "capnc":
         # capture() refuses a non-callable before it has set anything up: nothing may be left behind
         return {"t": "expr", "e": "capture(42)"}
